@@ -47,17 +47,20 @@ Hx(n, ch) == <<48,120>> \o Fill(n, ch)
 Strs == {<<>>, <<97>>, <<48,120>>, <<48,120,97,98>>, <<48,120,65,66>>, <<48,120,97>>, <<48,120,122,122>>, Fill(64, 98), Fill(65, 98), Hx(128, 97), Hx(130, 97), Fill(128, 97), Fill(130, 97),
          Fill(32, 195) , <<49,50>>, <<1>>, <<34,92>>, <<195,169>>, <<97,98>>, <<65,66>>, <<97,98,99>>}
 \* Fill(32,195) is not valid UTF-8 and cannot be written as JSON text: removed below
-JStrs == {s \in Strs : IsUtf8(s)} \cup {[i \in 1..64 |-> IF i % 2 = 1 THEN 195 ELSE 169], [i \in 1..65 |-> IF i = 65 THEN 97 ELSE IF i % 2 = 1 THEN 195 ELSE 169]}
+\* text whose second / first character is a multi-byte one (byte offsets 1..3 fall inside a character)
+MultiByte == {<<97, 195, 169>>, <<226, 130, 172>>, <<226, 130, 172, 49>>, <<240, 159, 154, 128>>, <<48, 195, 169>>, <<48, 120, 195, 169>>}
+JStrs == {s \in Strs : IsUtf8(s)} \cup MultiByte \cup {[i \in 1..64 |-> IF i % 2 = 1 THEN 195 ELSE 169], [i \in 1..65 |-> IF i = 65 THEN 97 ELSE IF i % 2 = 1 THEN 195 ELSE 169]}
 Keys == {<<>>, <<97>>, <<49,50>>, <<45,53>>, <<43,53>>, <<48,48,55>>, <<45,48>>, <<48,120>>, <<48,120,97,98>>, <<48,120,65,66>>, <<48,120,97>>, Fill(64, 98), Fill(65, 98), <<49,95,48>>,
          <<57,57,57,57,57,57,57,57,57,57,57,57,57,57,57,57,57,57,57,57>>, <<45,57,50,50,51,51,55,50,48,51,54,56,53,52,55,55,53,56,48,57>>,
          <<45,49,56,52,52,54,55,52,52,48,55,51,55,48,57,53,53,49,54,49,54>>, <<45,49,56,52,52,54,55,52,52,48,55,51,55,48,57,53,53,49,54,49,55>>,
          <<49,50,51,52,53,54,55,56,57,48,49,50,51,52,53,54,55,56,57,48,49,50,51,52,53,54,55,56,57,48,49,50,51,52,53,54,55,56,57,48,49>>, <<107>>, <<118>>, <<105,110,116>>}
+KeysAll == Keys \cup MultiByte
 JLeaves == {JNull, JBool(TRUE), JBool(FALSE)} \cup {JNum(n) : n \in Nums} \cup {JStr(s) : s \in JStrs}
 dJ == JNum(<<55>>)
 Obj1(k, v) == JObj(<< <<k, v>> >>)
 Obj2(k1, v1, k2, v2) == IF BytesLt(k1, k2) THEN JObj(<< <<k1, v1>>, <<k2, v2>> >>) ELSE JObj(<< <<k2, v2>>, <<k1, v1>> >>)
 \* plain documents (no / basic schemas, Plutus basic)
-JP1 == {JArr(<<>>), JObj(<<>>)} \cup {JArr(<<x>>) : x \in JLeaves} \cup {JArr(<<x, dJ>>) : x \in JLeaves} \cup {Obj1(k, dJ) : k \in Keys} \cup {Obj1(<<107>>, v) : v \in JLeaves}
+JP1 == {JArr(<<>>), JObj(<<>>)} \cup {JArr(<<x>>) : x \in JLeaves} \cup {JArr(<<x, dJ>>) : x \in JLeaves} \cup {Obj1(k, dJ) : k \in KeysAll} \cup {Obj1(<<107>>, v) : v \in JLeaves}
        \cup {Obj2(<<97>>, dJ, <<98>>, JStr(<<118>>)), Obj2(<<49>>, dJ, <<48,49>>, JStr(<<118>>)), Obj2(<<49>>, dJ, <<43,49>>, JStr(<<118>>)), Obj2(<<49,48>>, dJ, <<57>>, JStr(<<118>>)), Obj2(<<48,120,97,98>>, dJ, <<48,120,65,66>>, dJ)}
 JP2 == {JArr(<<x>>) : x \in JP1} \cup {Obj1(<<107>>, x) : x \in JP1}
 JPlain == JLeaves \cup JP1 \cup JP2
